@@ -6,6 +6,7 @@ CONSTANTS
   Quals = {"good","badsig","foreign","overdraft"}
   MaxSub = 6
   MaxBlocks = 2
+  MaxEvents = 1
   MaxLen = 0
   Defects = {}
 INVARIANT MInv_Once
